@@ -14,7 +14,11 @@ def run(ctx):
     from contracts import c13_conc as CC
     from contracts import c19_safety as S
 
-    # exception freedom (index / key / division / log-domain / assert / empty-choice obligations) of the sampler layer under its contracts
+    # exception freedom (index / key / division / log-domain / assert / empty-choice obligations) of the sampler layer under its contracts.
+    # The harnesses are shared with C01 / C04 / C08 / C09; their functional postconditions belong to those properties (a change that breaks
+    # a weight formula does not make a run fail), so only the safety obligations are claimed here, plus the posts that are C19's own.
+    own_posts = ("C19.resample-precondition", "C19.subtree.", "C19.conc.", "C19.smc.sample.")
+    ctx.vc_filter = lambda name, kind: kind != "post" or any(t in name for t in own_posts)
     common.smc_contracts(ctx, repo, "C19")
     tr = []
     r = G.sample_registry(tr)
